@@ -181,6 +181,7 @@ def main():
     ap.add_argument("--files", default="")
     ap.add_argument("--out", default="/tmp/mutscan")
     ap.add_argument("--jobs", type=int, default=6)
+    ap.add_argument("--only", default="", help="comma separated mutant numbers of a previous run with the same --seed")
     a = ap.parse_args()
     os.makedirs(a.out, exist_ok=True)
     files = [f for f in sorted(os.listdir(os.path.join(REPO, "goodwe"))) if f.endswith(".py")]
@@ -195,6 +196,9 @@ def main():
     rnd = random.Random(a.seed)
     rnd.shuffle(allsites)
     jobs = [(k, rel, kind, path, a.out) for k, (rel, kind, path) in enumerate(allsites[:a.n])]
+    if a.only:
+        keep = {int(x) for x in a.only.split(",")}
+        jobs = [j for j in jobs if j[0] in keep]
     print("%d mutation sites, running %d" % (len(allsites), len(jobs)), flush=True)
     stats = {}
     undet = []
